@@ -9,6 +9,7 @@
  * and writes nothing but the cache and the two out-parameters.
  *
  *   -DVC_NI=<implementations in the chain, 2|3>   -DVC_T=<symbolic entries per table, <=3>
+ *   -DVC_CASE=<-1..7>  case split on the first cache slot holding exactly this request (-1: none)
  * Table k = VC_T fully symbolic entries (+ for the last implementation one more entry that is
  * either the catch-all {OP_any, any,0, any,0, any,0} or absent, chosen by in_catchall) + the
  * PIXMAN_OP_NONE terminator; a symbolic entry may itself be a terminator (shorter table).
@@ -96,6 +97,7 @@ void harness (void)
     VC_IN_ARRAY (vh_u32, in_tab, VC_NI * VC_T * 8);  /* op, sf, sfl, mf, mfl, df, dfl, func index */
     VC_IN_ARRAY (vh_u32, in_cache, 8 * 9);           /* op, sf, sfl, mf, mfl, df, dfl, func index (4 = NULL), imp index */
     VH_IN (vh_u32, in_catchall);
+    VH_IN (vh_u32, in_g);
     VH_IN (vh_u32, in_op); VH_IN (vh_u32, in_sf); VH_IN (vh_u32, in_sfl); VH_IN (vh_u32, in_mf); VH_IN (vh_u32, in_mfl);
     VH_IN (vh_u32, in_df); VH_IN (vh_u32, in_dfl);
     pixman_fast_path_t tab0[VC_NI][VC_TT];
@@ -105,6 +107,7 @@ void harness (void)
     int k, j, i, ki, found, ok;
     pixman_composite_func_t fn;
 
+    VH_ASSUME (in_g < 8);
     /* ---- the chain and its tables */
     for (k = 0; k < VC_NI; k++)
     {
@@ -147,6 +150,22 @@ void harness (void)
     /* ---- ... that satisfies cache_ok */
     for (i = 0; i < 8; i++)
         VH_ASSUME (vc_slot_ok (i));
+#ifdef VC_CASE
+    /* case split (one query per case, all 9 cases are run): which slot is the first whose key
+     * equals the request and whose func is non-NULL; -1 = none */
+    {
+        int hit = -1;
+        for (i = 0; i < 8; i++)
+        {
+            const pixman_fast_path_t *c = &fast_path_cache.cache[i].fast_path;
+            if (hit < 0 && (uint32_t) c->op == in_op && (uint32_t) c->src_format == in_sf && c->src_flags == in_sfl &&
+                (uint32_t) c->mask_format == in_mf && c->mask_flags == in_mfl && (uint32_t) c->dest_format == in_df &&
+                c->dest_flags == in_dfl && c->func)
+                hit = i;
+        }
+        VH_ASSUME (hit == (VC_CASE));
+    }
+#endif
 
     for (k = 0; k < VC_NI; k++)
         for (j = 0; j < VC_TT; j++)
@@ -164,11 +183,8 @@ void harness (void)
     VH_CHECK ("lookup.no_match_gives_null_imp_and_noop_routine",
               found || (out_imp == (pixman_implementation_t *) 0 && out_func == dummy_composite_rect));
     VH_CHECK ("lookup.error_logged_iff_no_match", vc_log_calls == (found ? 0 : 1));
-    ok = 1;
-    for (i = 0; i < 8; i++)
-        if (!vc_slot_ok (i))
-            ok = 0;
-    VH_CHECK ("lookup.cache_ok_preserved", ok);
+    /* cache_ok afterwards, at a ghost slot in_g (any of the 8) */
+    VH_CHECK ("lookup.cache_ok_preserved", vc_slot_ok ((int) in_g));
     {
         const pixman_fast_path_t *c = &fast_path_cache.cache[0].fast_path;
         VH_CHECK ("lookup.slot0_is_memo_of_this_request",
